@@ -146,15 +146,11 @@ def sliceRanges (a : Artefact) (off : Nat) : List ARange := a.ranges.filter (fun
 /-- bytes the DMA of a slice moves (`create_dma_op`): 16-byte rounded size of each core's range -/
 def dmaBytes (rs : List ARange) : Nat := (rs.map fun r => roundUp16 (r.scaleBytes + r.weightBytes)).sum
 
-/-- stream extent of a slice -/
-def spanBytes (rs : List ARange) : Nat :=
-  (rs.map ARange.stop).foldl max 0 - (rs.map ARange.offset).foldl min (rs.headD ⟨0, 0, 0, 0, 0, 0⟩).offset
-
 def dbsOf (a : Artefact) (i : Nat) : Nat := if i % 2 = 0 then a.dbs0 else a.dbs1
 
-/-- slice `i` occupies buffer `i mod 2`, whose recorded size must hold it -/
+/-- slice `i` occupies buffer `i mod 2`, whose recorded size must hold the bytes its DMA moves -/
 def DbsOk (q : SReq) (a : Artefact) : Prop :=
-  ∀ s ∈ slices q.offsets, dmaBytes (sliceRanges a s.2.1) ≤ dbsOf a s.1 ∧ spanBytes (sliceRanges a s.2.1) ≤ dbsOf a s.1
+  ∀ s ∈ slices q.offsets, dmaBytes (sliceRanges a s.2.1) ≤ dbsOf a s.1
 
 instance (q : SReq) (a : Artefact) : Decidable (KeysOk q a) := by unfold KeysOk; infer_instance
 instance (a : Artefact) : Decidable (AlignedOk a) := by unfold AlignedOk; infer_instance
